@@ -75,6 +75,7 @@ type drv struct {
 	known        map[int64]bool
 	kmu          sync.Mutex
 	installs     int
+	pinned       bool
 	fmu          sync.Mutex
 }
 
@@ -1344,9 +1345,49 @@ func (d *drv) stepLSM() {
 		d.settlePoint()
 	case r < 985:
 		d.reclaim()
+	case r < 992:
+		d.longPin()
 	default:
 		d.readAll()
 	}
+}
+
+// longPin: a reader stays open across more version changes than the reference loop
+// caches (maxCachedNumber = 256), i.e. through its conversion to full file references,
+// while compactions delete the tables it pinned; it must still read its frozen view.
+func (d *drv) longPin() {
+	if d.pinned {
+		return
+	}
+	d.pinned = true
+	d.doCompact()
+	d.doIterNew("db")
+	var hh int
+	for h := range d.its {
+		if h > hh {
+			hh = h
+		}
+	}
+	it := d.its[hh]
+	// the first version changes after the pin are table compactions that delete tables the reader has not opened yet
+	for level := 1; level <= 3; level++ {
+		leveldb.VerifCompactLevel(d.db, level, util.Range{})
+	}
+	for i := 0; i < 290; i++ {
+		d.doPutDel()
+		if err := leveldb.VerifRotateMem(d.db, true); err != nil {
+			break
+		}
+		if i%40 == 39 {
+			d.doCompact()
+		}
+	}
+	d.emit(vt.Ev{"ev": "note", "what": "long-pin", "installs": d.installs})
+	if _, ok := d.its[hh]; ok {
+		d.walk(hh, it, d.u.N()+4)
+		d.doIterRel(hh, it)
+	}
+	d.settlePoint()
 }
 
 // ---- the programs ----
